@@ -43,17 +43,22 @@ theorem begin_same_file_same_pkg_shares (id1 id2 : String) (o : OutRef) (h : o.p
   simp [beginOutput, h]
 
 /-- the same file mapped to two different packages is a conflict -/
-theorem begin_same_file_other_pkg_conflicts (id1 id2 file p1 p2 : String) (h1 : p1 ≠ "") (h2 : p2 ≠ "") (hne : p1 ≠ p2) :
+theorem begin_same_file_other_pkg_conflicts (id1 id2 file p1 p2 : String) (hf : file ≠ "") (h1 : p1 ≠ "") (h2 : p2 ≠ "") (hne : p1 ≠ p2) :
     beginOutput [(id1, ⟨file, p1⟩)] id2 ⟨file, p2⟩ = .error (.conflictSameFile file p1 p2) := by
-  simp [beginOutput, h2, hne]
+  simp [beginOutput, h2, hne, hf]
+
+/-- fix R15: two schemas WITHOUT an output file (their types live elsewhere) never conflict, whatever their packages -/
+theorem begin_external_never_conflicts (id1 id2 p1 p2 : String) (h2 : p2 ≠ "") :
+    beginOutput [(id1, ⟨"", p1⟩)] id2 ⟨"", p2⟩ = .ok [(id1, ⟨"", p1⟩), (id2, ⟨"", p2⟩)] := by
+  simp [beginOutput, h2]
 
 /-- … whichever of the two schemas comes first: the run fails for both argument orders -/
-theorem begin_conflict_symmetric (id1 id2 file p1 p2 : String) (h1 : p1 ≠ "") (h2 : p2 ≠ "") (hne : p1 ≠ p2) :
+theorem begin_conflict_symmetric (id1 id2 file p1 p2 : String) (hf : file ≠ "") (h1 : p1 ≠ "") (h2 : p2 ≠ "") (hne : p1 ≠ p2) :
     (∃ e, beginOutput [(id1, ⟨file, p1⟩)] id2 ⟨file, p2⟩ = .error e) ∧
     (∃ e, beginOutput [(id2, ⟨file, p2⟩)] id1 ⟨file, p1⟩ = .error e) := by
   constructor
-  · exact ⟨_, begin_same_file_other_pkg_conflicts id1 id2 file p1 p2 h1 h2 hne⟩
-  · exact ⟨_, begin_same_file_other_pkg_conflicts id2 id1 file p2 p1 h2 h1 (Ne.symm hne)⟩
+  · exact ⟨_, begin_same_file_other_pkg_conflicts id1 id2 file p1 p2 hf h1 h2 hne⟩
+  · exact ⟨_, begin_same_file_other_pkg_conflicts id2 id1 file p2 p1 hf h2 h1 (Ne.symm hne)⟩
 
 /-- a reference is qualified (and the other package imported) exactly when it crosses packages -/
 theorem qualified_iff_other_package (fromPkg toPkg name : String) :
